@@ -52,7 +52,7 @@ var externalReadOnly = map[string]string{
 	"crypto/cipher.NewCBCEncrypter":             "copies the IV",
 	"encoding/hex.EncodeToString":               "reads its argument",
 	"encoding/hex.Dump":                         "reads its argument",
-	"(*math/big.Int).SetBytes":                  "reads the byte slice, writes the receiver",
+	"crypto/rand.Int":                           "reads max; draws from the reader (crypto/rand.Reader is safe for concurrent use)",
 	"(*math/big.Int).Cmp":                       "reads receiver and argument",
 	"(*math/big.Int).Bytes":                     "reads the receiver, returns a fresh slice",
 	"github.com/pkg/errors.Errorf":              "formats its arguments",
@@ -87,6 +87,10 @@ var externalWritesArg = map[string][]int{
 	"crypto/rand.Read":                            {0},
 	"iface:crypto/cipher.BlockMode.CryptBlocks":   {0},
 	"sort.Slice":                                  {0},
+	"(*math/big.Int).Exp":                         {0},
+	"(*math/big.Int).SetString":                   {0},
+	"(*math/big.Int).SetUint64":                   {0},
+	"(*math/big.Int).SetBytes":                    {0},
 }
 
 type funcEffects struct {
